@@ -3,8 +3,20 @@
 import json, sys
 pid = sys.argv[1]
 n = int(sys.argv[2]) if len(sys.argv) > 2 else 4
+rnd = int(sys.argv[3]) if len(sys.argv) > 3 else 1
 p = next(json.loads(l) for l in open('/verif/properties.jsonl') if json.loads(l)['id'] == pid)
-wt = f"/tmp/mut/{pid.lower()}"
+wt = f"/tmp/mut/{pid.lower()}" + (f"r{rnd}" if rnd > 1 else "")
+import glob
+known = []
+if rnd > 1:
+    for f in sorted(glob.glob(f"/verif/seeded/{pid}-*/meta.json")):
+        m = json.load(open(f))
+        known.append("  - " + " ".join(str(m.get("summary", "")).split())[:300])
+avoid = ""
+if known:
+    avoid = ("\n\nThe following changes were already tried by someone else — do NOT repeat them or close variants; look in different functions, "
+             "different clauses of the property, helper functions in other modules that the anchored code relies on, option combinations, "
+             "multi-step sequences and cooperating pairs of edits:\n" + "\n".join(known) + "\n")
 files = ", ".join(p["anchors"]["files"])
 mech = "\n".join(f"  - {m['name']} ({m['where']})" for m in p["anchors"].get("mechanism", []))
 print(f"""You are testing how robust a Python library's behaviour is against subtle regressions. The library is odc-geo (opendatacube/odc-geo); you have your own scratch git worktree of it at {wt} (detached HEAD; work ONLY inside this directory; never touch /repo or /verif; do not read anything under /verif). Python is /venv/bin/python; run things with `cd {wt} && PYTHONPATH={wt} /venv/bin/python ...` so that your worktree's code is imported (verify with `import odc.geo; print(odc.geo.__file__)`). There is no network. Do NOT use `git stash` (the stash is shared between worktrees of other people working in parallel); toggle your change with `git apply` / `git apply -R` / `git checkout -- .` and patch files only.
@@ -21,6 +33,7 @@ Quantifier: {p['quantifier']['text']}
 The relevant code is in: {files}. Mechanisms involved:
 {mech}
 
+{avoid}
 Your task: produce {n} different, independent code changes (mutations) to odc-geo, each of which
  (a) BREAKS the property above (for some input / configuration / sequence / schedule),
  (b) still imports/compiles and keeps the EXISTING test-suite passing. FIRST record the baseline: `cd {wt} && mkdir -p out && PYTHONPATH={wt} /venv/bin/python -m pytest -q -p no:cacheprovider tests 2>&1 | grep -E "^(FAILED|ERROR)" | sort > out/baseline.txt` (a handful of tests fail already without any change — that set is the baseline). After each mutation the set of FAILED/ERROR tests must be exactly the same,
